@@ -832,6 +832,9 @@ class MarkdownNormalizer(Renderer):
         self._skip_next_blank_line = False  # see render_quote
         # After rendering an alert block, don't suppress the next item break
         self._suppress_item_break = False
+        if not result:
+            # An alert with nothing in it is just its header line.
+            return alert_header
         return f"{alert_header}{result}\n"
 
 
